@@ -27,8 +27,9 @@ type Config struct {
 	Buckets  int  `json:"buckets"`
 	Handles  int  `json:"handles"`
 	Colls    int  `json:"colls"`
-	FeedsPer int  `json:"feedsPer"` // live feeds per collection (started through alternating handles)
-	Marker   bool `json:"marker"`   // fence every step with a marker write
+	FeedsPer int  `json:"feedsPer"`           // live feeds per collection (started through alternating handles)
+	Marker   bool `json:"marker"`             // fence every step with a marker write
+	KeysOnly bool `json:"keysOnly,omitempty"` // additionally register a KeysOnly feed on every collection BEFORE the full feeds
 	MaxDoc   int  `json:"maxDoc,omitempty"`
 }
 
@@ -49,6 +50,7 @@ type Ev struct {
 
 type FeedRec struct {
 	Bucket, Coll, Handle int
+	KeysOnly             bool
 	mu                   sync.Mutex
 	cond                 *sync.Cond
 	evs                  []Ev
@@ -187,6 +189,12 @@ func NewEnv(cfg Config, tmp string) (*Env, error) {
 		}
 		e.Buckets = append(e.Buckets, be)
 		for ci := 0; ci < cfg.Colls; ci++ {
+			if cfg.KeysOnly && cfg.FeedsPer > 0 {
+				if _, err := e.startLiveFeed(bi, ci, 0, true); err != nil {
+					e.Close()
+					return nil, err
+				}
+			}
 			for k := 0; k < cfg.FeedsPer; k++ {
 				if _, err := e.StartLiveFeed(bi, ci, k%cfg.Handles); err != nil {
 					e.Close()
@@ -200,10 +208,14 @@ func NewEnv(cfg Config, tmp string) (*Env, error) {
 
 // StartLiveFeed starts a no-backfill live feed on (bucket, coll) through the given handle.
 func (e *Env) StartLiveFeed(bi, ci, h int) (*FeedRec, error) {
+	return e.startLiveFeed(bi, ci, h, false)
+}
+
+func (e *Env) startLiveFeed(bi, ci, h int, keysOnly bool) (*FeedRec, error) {
 	be := e.Buckets[bi]
-	f := &FeedRec{Bucket: bi, Coll: ci, Handle: h, term: make(chan bool), done: make(chan struct{})}
+	f := &FeedRec{Bucket: bi, Coll: ci, Handle: h, KeysOnly: keysOnly, term: make(chan bool), done: make(chan struct{})}
 	f.cond = sync.NewCond(&f.mu)
-	args := sgbucket.FeedArguments{ID: fmt.Sprintf("live-%d-%d-%d", bi, ci, len(be.Feeds)), Backfill: sgbucket.FeedNoBackfill, Terminator: f.term, DoneChan: f.done}
+	args := sgbucket.FeedArguments{ID: fmt.Sprintf("live-%d-%d-%d", bi, ci, len(be.Feeds)), Backfill: sgbucket.FeedNoBackfill, Terminator: f.term, DoneChan: f.done, KeysOnly: keysOnly}
 	if err := be.Colls[h][ci].StartDCPFeed(context.Background(), args, f.callback, nil); err != nil {
 		return nil, err
 	}
